@@ -52,8 +52,12 @@ def run(ctx):
         legend = int(rng.random() < 0.6)
         title = rng.choice(["", "", "My title"])
         labels = ["lab%d" % i for i in range(nd)] if rng.random() < 0.4 else []
-        hasrange = int(rng.random() < 0.25)
-        rngticks = [-2, 30, -4, 40] if rng.random() < 0.5 else [1, 7, 1, 7]      # a range covering the data, or a zoomed view that cuts finite points off
+        hasrange = int(rng.random() < 0.3)
+        # a (tall) range covering the data, a zoomed view that cuts finite points off, or a range much wider than it is high
+        rngticks = rng.choice([[-2, 30, -4, 40], [1, 7, 1, 7], [-2, 90, -4, 40]])
+        if hasrange and rngticks[1] == 90:
+            for dg in dgms:
+                dg[0][2] = 0          # (an essential class in every diagram: the infinity line is there to be placed)
         f32 = rng.random() < 0.4
         rep = (not po) and rng.random() < 0.25
         if rep:
